@@ -128,7 +128,7 @@ def task_queries(shape):
             d = chk.call(deepcopy, k)
             chk.add("copy", c is not k and d is not k and tuple(c) == tuple(k) and tuple(d) == tuple(k) and c.degree == p, "copies are equal, distinct objects")
 
-        out += H.run_paths(ctx, fn, "S-sym", stag(shape, pos), dict(kind="c03.queries", shape=shape, pos=pos), body)
+        out += H.run_paths(ctx, fn, "S-sym", stag(shape, pos), dict(kind="c03.queries", shape=shape, pos=pos, task=("c03", "task_queries", [shape])), body)
     return out
 
 
@@ -275,7 +275,7 @@ def task_mutators(shape):
         r = chk.call(lambda: k * s)
         chk.add("ok:mul-returns-new", r is not k and k.internal is payload and vec_eq(list(r), [u * s for u in U]), "k * s leaves k unchanged")
 
-    return H.run_paths(ctx, fn, "S-sym", stag(shape, None, ",mutators"), dict(kind="c03.mutators", shape=shape), body)
+    return H.run_paths(ctx, fn, "S-sym", stag(shape, None, ",mutators"), dict(kind="c03.mutators", shape=shape, task=("c03", "task_mutators", [shape])), body)
 
 
 task_mutators.contract_fn = "knotspace.KnotVector"
@@ -503,6 +503,8 @@ def replay(o):
             except Exception as e:
                 return True, "ValueError", log + [(name, type(e).__name__)]
         return False, "invariant", log
+    if w.get("task"):
+        return H.generic_replay(o)
     return False, "see verifier output", "not replayed concretely"
 
 
